@@ -464,8 +464,13 @@ fn encoder(
                         fields
                             .iter()
                             .map(|field| {
+                                // Widen to the type of the chunk before shifting: Java takes the
+                                // shift distance of an int modulo 32.
                                 t.lshift(
-                                    field.symbol.to_num(&t, field.symbol.name(), width_fields),
+                                    t.cast(
+                                        field.symbol.to_num(&t, field.symbol.name(), width_fields),
+                                        Integral::fitting(*width).limit_to_int(),
+                                    ),
                                     t.num(field.offset),
                                 )
                             })
